@@ -169,13 +169,18 @@ Definition init : st :=
   {| tbl := []; pmap := []; reused := []; lowest := None; heap := fun _ => new_obj 0 0; nobj := 0;
      gens := fun _ => GDone; ngen := 0 |}.
 
+(* what goes wrong with /proc/<n>/status inside _pslinux.pid_exists *)
+Inductive sfault := FErrno (errno : Z) | FNoTgid.
+
 Inductive ev :=
 (* kernel *)
 | Spawn (pid start : Z) | Exit (pid : Z) | Reap (pid : Z) | Thread (pid tid : Z) | ThreadExit (tid : Z)
 (* psutil calls *)
 | Pids | PidExists (n : Z)
 | IterNew (attrs : attrs_t) | IterNext (g : nat) | IterClose (g : nat)
-| CacheClear | IsRunning (o : nat).
+| CacheClear | IsRunning (o : nat)
+(* pid_exists(n) while opening / reading /proc/<n>/status fails with OSError(errno), or the file has no Tgid line *)
+| PidExistsF (n : Z) (f : sfault).
 
 Inductive out :=
 | ONone
@@ -354,6 +359,17 @@ Section Step.
       if Nat.leb (nobj s) o then (s, OBad) else
       let '(r, ob', ru') := is_running_obj (tbl s) (reused s) (o_pid (heap s o)) (heap s o) in
       (mk s (tbl s) (pmap s) ru' (lowest s) (upd_heap (heap s) o ob') (nobj s) (gens s) (ngen s), OBool r)
+    (* ---------------- psutil.pid_exists(n) with a faulty /proc/<n>/status:
+       _psposix.pid_exists first (kill), then 'except (OSError, ValueError): return pid in pids()' *)
+    | PidExistsF n _ =>
+      if n <? 0 then (s, OBool false)
+      else if (n =? 0) || ((n <=? PIDMAX) && negb (id_free (tbl s) n)) then   (* pid in pids() *)
+        match pids_sorted (listing (tbl s)) with
+        | Val (l, low) => (with_lowest s low, OBool (zmem n l))
+        | Exc e => (s, OExc e)
+        | OutOfModel => (s, OOom)
+        end
+      else (s, OBool false)                                      (* OverflowError / ESRCH from os.kill *)
     end.
 
   Definition final (h : list ev) : st := fold_left (fun s e => fst (step s e)) h init.
